@@ -8,17 +8,21 @@ fn main() {
     let mut counts = vec![0usize; keys.len()];
     let mut fam = std::collections::BTreeMap::new();
     let mut states = 0;
+    let mut root_loops = 0;
     for sd in &set.defs {
         *fam.entry(sd.family.clone()).or_insert(0usize) += 1;
         let Ok(p) = prepare(&sd.def) else { continue };
         states += p.graph.states.len();
+        if p.graph.states[p.graph.root].normal.iter().any(|(_, next)| *next == p.graph.root) {
+            root_loops += 1;
+        }
         for (i, (_, k)) in keys.iter().enumerate() {
             if p.output.contains(k) {
                 counts[i] += 1;
             }
         }
     }
-    println!("{} subjects {:?}, {} graph states", set.defs.len(), fam, states);
+    println!("{} subjects {:?}, {} graph states, {} with a root that loops on itself", set.defs.len(), fam, states, root_loops);
     for (i, (n, _)) in keys.iter().enumerate() {
         println!("  {:55} {}", n, counts[i]);
     }
